@@ -115,14 +115,14 @@ type Frame struct {
 
 // WSClient is a strict graphql-ws client.
 type WSClient struct {
-	Conn   net.Conn
-	mu     sync.Mutex
-	frames []Frame
-	closed bool
-	closing bool
+	Conn      net.Conn
+	mu        sync.Mutex
+	frames    []Frame
+	closed    bool
+	closing   bool
 	closeInfo string
-	done   chan struct{}
-	wmu    sync.Mutex
+	done      chan struct{}
+	wmu       sync.Mutex
 }
 
 var knownServerTypes = map[string]bool{"connection_ack": true, "ka": true, "data": true, "error": true, "complete": true, "connection_error": true}
